@@ -332,7 +332,8 @@ theorem createTable_atomic (slack : Nat → Nat) (s : Pkg) (tabs : List Table) (
     (hN : NoOrphans s) (hV : MsiProofs.ValidCells.ValidAll s) (name : List Char) (cols : List Column)
     (hce : createError s name cols = none) :
     (createTable s name cols).2 = .ok () ∨ (∃ w, (createTable s name cols).2 = .panic w) ∨
-    ((createTable s name cols).2 = .err .invalidInput ∧ (createTable s name cols).1 = { s with finisher := true }) := by
+    ((∃ k, (createTable s name cols).2 = .err k) ∧
+      ((createTable s name cols).1 = s ∨ (createTable s name cols).1 = { s with finisher := true })) := by
   have hC := hF.core
   have hf := createError_facts s name cols hce
   obtain ⟨hv1, hv2, hv3⟩ := createError_valid s name cols hce
@@ -355,6 +356,13 @@ theorem createTable_atomic (slack : Nat → Nat) (s : Pkg) (tabs : List Table) (
   have hle2 := validation_le_columns slack s tabs hC hF.hasVal
   unfold createTable
   simp only [hce]
+  -- the room check: refused there, nothing at all has changed
+  cases hroom : catalogRoom s name cols with
+  | err k => exact Or.inr (Or.inr ⟨⟨k, rfl⟩, Or.inl rfl⟩)
+  | panic w => exact Or.inr (Or.inl ⟨w, rfl⟩)
+  | ok u =>
+  cases u
+  simp only
   -- stage 1: `_Columns`
   have hIA := inv_finisher slack s hC.inv
   have hSA := sorted_finisher s hC.sorted
@@ -380,7 +388,7 @@ theorem createTable_atomic (slack : Nat → Nat) (s : Pkg) (tabs : List Table) (
     obtain ⟨s1, res1⟩ := r1
     simp only at g1 hst
     subst g1
-    exact ⟨rfl, hst⟩
+    exact ⟨⟨_, rfl⟩, Or.inr hst⟩
   simp only [hfull, if_false] at g1
   generalize hr1 : insertRows s Gen.nameColumns.toList (catalogRowsColumns name cols) = r1 at g1
   obtain ⟨s1, res1⟩ := r1
